@@ -305,6 +305,20 @@ pub fn family(name: &str, tier: Tier) -> Vec<Case> {
                 ];
                 out.push(Case { scn: s, menu: menu_null(), k: 1, extra: vec![], expect: Expect::Nothing, injects: vec![], differential: false, first_index: 0, adv: None });
             }
+            // stream-count limits that differ per stream type (and per role): the opener must respect the
+            // limit of the type it opens, not the other one
+            for (bidi, uni) in [(4u64, 1u64), (1, 4), (3, 2)] {
+                let mut s = Scenario::base(&format!("flow/open-many-bidi{}-uni{}", bidi, uni));
+                s.server.max_bidi_remote = Some(bidi);
+                s.server.max_uni_remote = Some(uni);
+                s.client.max_bidi_remote = Some(uni);
+                s.client.max_uni_remote = Some(bidi);
+                s.tasks = vec![[echo_task(300, 0), echo_task(300, 0), echo_task(300, 0)].concat(), [uni_task(300, 0), uni_task(300, 0), uni_task(300, 0)].concat()];
+                s.server_mode.push_streams = 3;
+                s.server_mode.push_size = 200;
+                s.client_accepts_uni = true;
+                out.push(Case { scn: s, menu: menu_null(), k: 1, extra: vec![], expect: Expect::Complete, injects: vec![], differential: false, first_index: 0, adv: None });
+            }
             // stream-count limits
             for lim in [1u64, 2] {
                 let mut s = Scenario::base(&format!("flow/open-many-limit{}", lim));
